@@ -41,7 +41,7 @@ pub fn record_from_wire(wire: &[u8]) -> Result<Record, String> {
     Record::read(&mut d).map_err(|e| e.to_string())
 }
 
-fn zrr_wire(name: &[Vec<u8>], rtype: u16, ttl: u32, rdata: &[u8]) -> Vec<u8> {
+pub fn zrr_wire(name: &[Vec<u8>], rtype: u16, ttl: u32, rdata: &[u8]) -> Vec<u8> {
     URr {
         name: name.to_vec(),
         rtype,
